@@ -19,6 +19,11 @@ MAY_PANIC_CALLS = [
     (re.compile(r"^std::char::from_digit$"), "from_digit"),
     (re.compile(r"^std::collections::HashMap::<.*> as std::ops::Index"), "index"),
     (re.compile(r"^std::iter::Iterator::step_by$"), "step_by"),
+    # integer arithmetic done inside the standard library on behalf of this crate: `sum`/`product` inherit the
+    # caller's overflow checks, the operator traits on references (`&a + b`) are checked like the plain operators
+    (re.compile(r"^std::iter::Iterator::(sum|product)$"), "arith"),
+    (re.compile(r"^<.* as std::iter::(Sum|Product)(<.*>)?>::(sum|product)$"), "arith"),
+    (re.compile(r"^<&?'?\w* ?(usize|isize|u\d+|i\d+) as std::ops::(Add|Sub|Mul|Neg|AddAssign|SubAssign|MulAssign)(<.*>)?>::\w+$"), "arith"),
 ]
 
 TAINT_FIELDS = {"bracket_min", "bracket_max", "min", "max"}
@@ -227,6 +232,13 @@ class SiteScan:
                 if g.get(e0) is False:
                     return True, ""
             return False, "unwrap of %s without a dominating Some/Ok test" % show(x)[:80]
+        if kind == "arith":
+            if any(tainted(a) for a in args) or any("closure" in show(a) or "Iterator::map" in show(a) for a in args):
+                return False, "integer arithmetic delegated to the standard library (overflow-checked like the caller) on operands that are not known to be small"
+            d_, r_, fn_ = callee(t)
+            if r_.endswith(("::sum", "::product")):
+                return False, "sum/product of an iterator: overflow-checked like the caller; the elements are not known to be small"
+            return True, ""
         if kind == "refcell":
             return True, ""  # decided by BORROW-SCOPE
         if kind == "vecop":
